@@ -25,8 +25,7 @@ def run(patch, props, label):
     finally:
         shutil.rmtree(d, ignore_errors=True)
         for prop in props:
-            for sub in ("replay_target", "replay_crate", "typecheck_target", "typecheck_crate"):
-                shutil.rmtree(os.path.join(V, "out", prop, sub), ignore_errors=True)
+            shutil.rmtree(os.path.join(V, "out", prop + "_" + os.path.basename(d)), ignore_errors=True)
 args = sys.argv[1:]
 if args and args[0] == "--patch":
     run(args[1], [args[3]], os.path.basename(os.path.dirname(args[1])) or args[1])
